@@ -110,6 +110,8 @@ class SerialArchipelago(Archipelago):
         island_list = [copy.deepcopy(island) for _ in range(num_islands)]
         for isl in island_list:
             isl.regenerate_population()
+            # evaluations counted by the template are not evaluations of this island
+            isl._ea.evaluation.eval_count = 0
         return island_list
 
     def _shuffle_island_indices(self):
